@@ -73,6 +73,23 @@ theorem ne_nil_of_peek {l : Bytes} (h : peek l ≠ 0) : l ≠ [] := by
 theorem peek_cons (c : Nat) (l : Bytes) : peek (c :: l) = c := rfl
 theorem next_cons (c : Nat) (l : Bytes) : next (c :: l) = (c, l) := rfl
 
+theorem peek_append_of_ne_nil {n : Bytes} (rest : Bytes) (h : n ≠ []) :
+    peek (n ++ rest) = peek n := by
+  cases n with
+  | nil => exact absurd rfl h
+  | cons c n => rfl
+
+theorem peek_mem {n : Bytes} (h : n ≠ []) : peek n ∈ n := by
+  cases n with
+  | nil => exact absurd rfl h
+  | cons c n => simp [peek]
+
+/-- the first byte of a non-empty string of non-stop bytes followed by anything -/
+theorem peek_append_no_stop {stop : Nat → Bool} {n : Bytes} (rest : Bytes) (h : n ≠ [])
+    (hn : ∀ c ∈ n, stop c = false) : stop (peek (n ++ rest)) = false := by
+  rw [peek_append_of_ne_nil rest h]
+  exact hn _ (peek_mem h)
+
 /-! ### `takeUntil` -/
 
 theorem takeUntil_nil (stop : Nat → Bool) : takeUntil stop [] = ([], []) := rfl
